@@ -4,3 +4,4 @@
 (declare-fun dictNum (Iface String Int) Int)
 (declare-fun dictQual (Iface String Int) Int)
 (define-fun u8 ((x Int)) Int (mod x 256))
+(define-fun u32 ((x Int)) Int (mod x 4294967296))
